@@ -208,7 +208,7 @@ def stepMC (kv : Key × Val) : M Unit := do
 theorem initTop_eq (pdo cmd mf : Dict) (h1 : NoPrefix pdo) (h2 : NoPrefix cmd) (h3 : NoPrefix mf) (s : Store) :
     initTop pdo cmd mf s =
       (M.bind (M.forEach stepPdo (buildtypeFirst pdo))
-        (fun _ => M.forEach stepMC (buildtypeFirst mf ++ cmd))) s := by
+        (fun _ => M.forEach stepMC (buildtypeFirst mf ++ buildtypeFirst cmd))) s := by
   unfold initTop
   simp only [Bind.bind, M.bind, firstHandlePrefix_noPrefix pdo cmd mf h1 h2 h3 s]
   rfl
@@ -283,15 +283,16 @@ theorem initTop_value (k : Key) (id : Nat) (s s' : Store) (o : Obj) (pdo cmd mf 
         (fun _ _ _ => rfl)
         (fun kv hne => Fr.stepPdo k id kv hne hnp hd) (buildtypeFirst pdo) s s1 o g rfl
         (fun kv hkv => hp kv (mem_buildtypeFirst hkv)) hr1
-      have hmem : ∀ kv ∈ buildtypeFirst mf ++ cmd, kv.1 = k ∨ kv.1.name ≠ k.name := by
+      have hmem : ∀ kv ∈ buildtypeFirst mf ++ buildtypeFirst cmd, kv.1 = k ∨ kv.1.name ≠ k.name := by
         intro kv hkv
         rcases List.mem_append.mp hkv with h | h
         · exact hf kv (mem_buildtypeFirst h)
-        · exact hc kv h
+        · exact hc kv (mem_buildtypeFirst h)
       obtain ⟨o2, g2, _, hk2, hv2⟩ := loop_value k id k rfl s.options hm hn hbt stepMC (stepMC_k k hm hs)
         (fun _ _ _ => rfl)
-        (fun kv hne => Fr.stepMC k id kv hne hnp hd) (buildtypeFirst mf ++ cmd) s1 s' o1 g1 ho1 hmem hrun
-      rw [g2.value hm, hv2, alast_append, alast_buildtypeFirst k mf hbt, hk1, hv1, alast_buildtypeFirst k pdo hbt]
+        (fun kv hne => Fr.stepMC k id kv hne hnp hd) (buildtypeFirst mf ++ buildtypeFirst cmd) s1 s' o1 g1 ho1 hmem hrun
+      rw [g2.value hm, hv2, alast_append, alast_buildtypeFirst k mf hbt, alast_buildtypeFirst k cmd hbt, hk1, hv1,
+        alast_buildtypeFirst k pdo hbt]
       cases alast k cmd <;> cases alast k mf <;> cases alast k pdo <;> rfl
 
 /-! ## the same for a project option of the top-level project: `-Dopt` / `opt=v` address `:opt` -/
@@ -347,14 +348,15 @@ theorem initTop_value_project (n : Str) (id : Nat) (s s' : Store) (o : Obj) (pdo
       obtain ⟨o1, g1, ho1, hk1, hv1⟩ := loop_value kr id kg rfl s.options rfl hn hbt stepPdo (stepPdo_k kg rfl rfl)
         hrw (fun kv hne => Fr.stepPdo kr id kv hne hnp hd) (buildtypeFirst pdo) s s1 o g rfl
         (fun kv hkv => hp kv (mem_buildtypeFirst hkv)) hr1
-      have hmem : ∀ kv ∈ buildtypeFirst mf ++ cmd, kv.1 = kg ∨ kv.1.name ≠ kr.name := by
+      have hmem : ∀ kv ∈ buildtypeFirst mf ++ buildtypeFirst cmd, kv.1 = kg ∨ kv.1.name ≠ kr.name := by
         intro kv hkv
         rcases List.mem_append.mp hkv with h | h
         · exact hf kv (mem_buildtypeFirst h)
-        · exact hc kv h
+        · exact hc kv (mem_buildtypeFirst h)
       obtain ⟨o2, g2, _, hk2, hv2⟩ := loop_value kr id kg rfl s.options rfl hn hbt stepMC (stepMC_k kg rfl rfl)
-        hrw (fun kv hne => Fr.stepMC kr id kv hne hnp hd) (buildtypeFirst mf ++ cmd) s1 s' o1 g1 ho1 hmem hrun
-      rw [g2.value rfl, hv2, alast_append, alast_buildtypeFirst kg mf hbt, hk1, hv1, alast_buildtypeFirst kg pdo hbt]
+        hrw (fun kv hne => Fr.stepMC kr id kv hne hnp hd) (buildtypeFirst mf ++ buildtypeFirst cmd) s1 s' o1 g1 ho1 hmem hrun
+      rw [g2.value rfl, hv2, alast_append, alast_buildtypeFirst kg mf hbt, alast_buildtypeFirst kg cmd hbt, hk1, hv1,
+        alast_buildtypeFirst kg pdo hbt]
       cases alast kg cmd <;> cases alast kg mf <;> cases alast kg pdo <;> rfl
 
 end MesonModel.Options
